@@ -32,6 +32,11 @@ mod stats;
 mod time;
 mod tree_painter;
 
+// Verification hooks; compiled only with `--cfg divan_verif`.
+#[cfg(divan_verif)]
+#[doc(hidden)]
+pub mod verif;
+
 pub mod counter;
 
 /// `use divan::prelude::*;` to import common items.
